@@ -258,6 +258,12 @@ func (m *C07) After(w *world.World, a *world.Action, r *world.StepResult) *Viola
 			}
 			continue
 		}
+		if before.Exists && !after.Exists {
+			// the culprit had no stake left and its unbonding completed in this block's end-blocker: x/staking removed
+			// it after the evidence was handled, there is no record left to compare
+			w.Label("culprit-removed-in-evidence-block")
+			continue
+		}
 		if !after.Jailed {
 			return violf(P, "culprit-not-jailed", "%s: validator %s was not jailed", act.Kind, name)
 		}
